@@ -10,7 +10,7 @@ pub fn run(ctx: &Ctx) -> i32 {
         property: "C04",
         tier,
         seed: ctx.seed,
-        scenarios: tier.pick(800, 30_000),
+        scenarios: tier.pick(4_000, 80_000),
         threads: super::threads(),
         watchdog: Duration::from_secs(180),
         budget: Duration::from_secs(tier.pick(100, 1000)),
